@@ -335,3 +335,41 @@ package dispatch
 //@   nosafe
 //@   ensures [takes-every-group-and-keeps-walking] result && len(deref(snapshot)) == old(len(deref(snapshot))) + 1 && deref(snapshot)[len(deref(snapshot)) - 1] == unbox(el, *aggrGroup)
 //@   ensures [earlier-entries-kept] forall k int :: 0 <= k && k < old(len(deref(snapshot))) ==> deref(snapshot)[k] == old(deref(snapshot)[k])
+
+// ---- C13 / C14 / C05: how alerts reach the routing step. Start-up routes every alert the provider held at subscription
+// time before loading is reported done; afterwards each ingestion worker routes every delivery exactly once (the only
+// exception: a delivery during which the iterator reports an error), with the alert itself, and ends only when the
+// subscription is closed or the dispatcher is stopped.
+//@ func (*Dispatcher).Run
+//@   props C14 C05 C06
+//@   abstract
+//@   nosafe
+//@   at call chan.close assert [loaded-after-every-initial-alert] arg0 == d.loaded && count("Dispatcher).routeAlert") == len(ret("SlurpAndSubscribe"))
+//@   at call Dispatcher).routeAlert assert [the-initial-alert-itself] arg0 == d && arg2 == ret("SlurpAndSubscribe")[rangeindex1 + 1]
+//@   at call Dispatcher).run assert [ingest-from-the-same-subscription] arg0 == d && arg1 == ret1("SlurpAndSubscribe") && count("Dispatcher).routeAlert") == len(ret("SlurpAndSubscribe"))
+//@   ensures [started-at-most-once] !ret("CompareAndSwap") ==> !called("SlurpAndSubscribe") && !called("Dispatcher).run")
+//@   ensures [a-started-dispatcher-ingests] ret("CompareAndSwap") ==> count("Dispatcher).run") == 1
+//@   loop 1 invariant rangeindex < len(ret("SlurpAndSubscribe")) && count("Dispatcher).routeAlert") == rangeindex + 1 && !called("Dispatcher).run") && cell(d) == d && ret("SlurpAndSubscribe") == initalAlerts
+//@   noeffect Dispatcher).routeAlert Dispatcher).run Route).Walk SlurpAndSubscribe
+
+//@ func (*Dispatcher).run$3
+//@   props C14 C05 C13
+//@   abstract
+//@   nosafe
+//@   ensures [ends-only-when-closed-or-stopped] called("select") && (ret("select") == 1 || (ret("select") == 0 && !ret("recvcase.ok")))
+//@   at call Dispatcher).routeAlert assert [the-delivered-alert-itself] ret("select") == 0 && ret("recvcase.ok") && arg2 == ret("recvcase.value0").Data && countnil0("AlertIterator).Err") == count("Dispatcher).routeAlert") + 1
+//@   ensures [every-delivery-is-routed-once] count("Dispatcher).routeAlert") == countnil0("AlertIterator).Err") - ((ret("select") == 0 && ret("AlertIterator).Err") == nil) ? 1 : 0)
+//@   ensures [completion-signalled] count("WaitGroup).Done") == 1
+//@   loop 1 invariant count("Dispatcher).routeAlert") == countnil0("AlertIterator).Err") && !called("WaitGroup).Done")
+//@   noeffect Dispatcher).routeAlert
+
+//@ func (*Dispatcher).run
+//@   props C14 C05
+//@   abstract
+//@   nosafe
+//@   at call go:run$3 assert [one-worker-per-configured-slot-each-registered] count("go.stmt") == count("WaitGroup).Add") - 1 && arg0 == count("go.stmt")
+//@   ensures [all-workers-started] count("go.stmt") == (d.concurrency > 0 ? d.concurrency : 0) && count("WaitGroup).Add") == count("go.stmt")
+//@   ensures [maintenance-and-start-timer-run] count("WaitGroup).Go") == 2
+//@   ensures [returns-after-stop] called("chan.recv")
+//@   loop 1 invariant count("go.stmt") == i && count("WaitGroup).Add") == i && i >= 0 && count("WaitGroup).Go") == 2 && !called("chan.recv") && (i <= d.concurrency || i == 0) && d.concurrency == old(d.concurrency) && cell(d) == d
+//@   noeffect AlertIterator).Next AlertIterator).Close
